@@ -155,6 +155,10 @@ def main(argv=None):
         elif d['status'] == 'inconclusive':
             inconclusive.append(d)
         for v in d.get('violations', []):
+            if not v.get('reproduced') and v.get('path_dependent'):
+                d2 = dict(d); d2['notes'] = ['counterexample on a data-dependent path did not reproduce in floating point: %s' % v.get('what')]
+                inconclusive.append(d2)
+                continue
             if not v.get('reproduced'):
                 harness_errors.append({'cfg': d['cfg'], 'trace': 'counterexample did not reproduce on the real library: %s' % v.get('what')})
                 continue
